@@ -216,7 +216,7 @@ const FramesPerSegment = 8
 type callFrameStackSegment struct {
 	array [FramesPerSegment]callFrame
 }
-type segIdx uint16
+type segIdx uint32
 type autoGrowingCallFrameStack struct {
 	segments []*callFrameStackSegment
 	segIdx   segIdx
